@@ -216,6 +216,10 @@ def specs(tier):
         out.append((f"comment-b{vl}", [("comment", vl)]))
     for n in range(1, vl1 + 1):
         out.append((f"qentry-q{n}", [("qentry", n)]))
+    for which in ("ID", "ENTRYTYPE"):
+        out.append((f"idfield-{which}", [("idfield", which)]))
+    for fl in (1, 2, 3):
+        out.append((f"glued-f{fl}", [("glued", fl)]))
     for word in ("comment", "string", "preamble"):
         for n in (1, 2):
             out.append((f"resvtype-{word}-{n}", [("resvtype", word, n)]))
